@@ -66,60 +66,66 @@ def run(chk):
     sql = repo.mod("backend.sql")
     scfg = sib.cfgs["sql"]
 
-    # ---- R2 filter placement (form-agnostic: if statement, conditional expression or an aliased target list)
-    from ..flags import filter_destinations, is_conc
+    # ---- R11 first: where a filter lands (WHERE / HAVING) is decided on the compiled statements of the end-to-end simulation; the
+    # partial evaluation of the Filter slice (R2 below) is only consulted when that is not possible
+    from .. import pipesim as _ps
 
-    items = Slicer(sym, sql, scfg.subject, sym.cls("Filter")).slice(scfg.func.body)
-    f_stmts = [it.node if isinstance(it, Cond) else it for it in items]
-    qname = scfg.outputs["SEL"].split(".")[0]
-    # what the Summarize slice leaves in the query state *for every grouping* (also none / only constant columns):
-    # a field is definitely truthy only if it is assigned a truthy constant; fields filled by extend()/+= from the
-    # grouping columns are empty for an ungrouped summarize
-    s_items = Slicer(sym, sql, scfg.subject, sym.cls("Summarize")).slice(scfg.func.body)
-    qcls = sym.resolve_class(sql, "Query")
-    fresh = {}
-    for st in qcls.node.body:
-        if isinstance(st, ast.AnnAssign) and isinstance(st.target, ast.Name) and st.value is not None:
-            v = st.value
-            if isinstance(v, ast.Constant):
-                fresh[f"{qname}.{st.target.id}"] = v.value
-            elif any(x in norm(v).replace(" ", "") for x in ("default_factory=list", "default_factory=dict", "default_factory=set")):
-                fresh[f"{qname}.{st.target.id}"] = []
-    after = dict(fresh)
-    definite = set()
-    for st, _c in flat(s_items):
-        if isinstance(st, ast.Assign) and len(st.targets) == 1 and isinstance(st.targets[0], ast.Attribute) and norm(st.targets[0].value) == qname:
-            fld = f"{qname}.{st.targets[0].attr}"
-            if isinstance(st.value, ast.Constant):
-                after[fld] = st.value.value
-                if st.value.value:
-                    definite.add(fld)
-            elif isinstance(st.value, (ast.List, ast.Dict)) and not (st.value.elts if isinstance(st.value, ast.List) else st.value.keys):
-                after[fld] = []
-    # (fields the Summarize slice fills from the grouping columns stay at their empty default: the ungrouped case)
-    # a table that is grouped but not summarised yet: group_by only records the pending grouping (partition_by); a
-    # filter there still acts on the input rows
-    pending = dict(fresh)
-    pending[f"{qname}.partition_by"] = [Sym("g")]
-    try:
-        d_after = filter_destinations(f_stmts, qname, scfg.subject, after)
-        d_before = filter_destinations(f_stmts, qname, scfg.subject, fresh)
-        d_pending = filter_destinations(f_stmts, qname, scfg.subject, pending)
-    except Unsupported as u:
-        raise AnalysisError(f"C04/R2: cannot evaluate the SQL Filter slice: {u}") from u
-    node_f = f_stmts[0] if f_stmts else scfg.func
-    chk.ob("R2", sql, node_f, "Filter after summarize (grouped, ungrouped, constant grouping columns) -> query.having",
-           bool(d_after) and all(d == {f"{qname}.having"} for d in d_after),
-           f"after a summarize without (non-constant) grouping columns the SQL filter puts its predicates into {sorted(set().union(*d_after)) if d_after else '?'} "
-           f"(the Summarize slice only guarantees {sorted(definite) or 'nothing'}): a predicate on an aggregate lands in WHERE and the statement is "
-           "invalid / filters the input rows; it must go to HAVING")  # fmt: skip
-    chk.ob("R2", sql, node_f, "Filter between group_by and summarize -> query.where",
-           bool(d_pending) and all(d == {f"{qname}.where"} for d in d_pending),
-           f"a filter on a grouped, not yet summarised table puts its predicates into {sorted(set().union(*d_pending)) if d_pending else '?'}: "
-           "HAVING on a bare column keeps or drops whole groups by one arbitrary row and the aggregates see unfiltered rows")  # fmt: skip
-    chk.ob("R2", sql, node_f, "Filter on a fresh query -> query.where",
-           bool(d_before) and all(d == {f"{qname}.where"} for d in d_before),
-           f"a filter before any summarize puts its predicates into {sorted(set().union(*d_before)) if d_before else '?'} instead of WHERE")  # fmt: skip
+    placement_decided = _ps.report(chk, m, "R11", ['placement', 'recompile'], depth_quick=2, depth_thorough=3, floor=100)
+    if not placement_decided:
+        # ---- R2 filter placement (form-agnostic: if statement, conditional expression or an aliased target list)
+        from ..flags import filter_destinations, is_conc
+
+        items = Slicer(sym, sql, scfg.subject, sym.cls("Filter")).slice(scfg.func.body)
+        f_stmts = [it.node if isinstance(it, Cond) else it for it in items]
+        qname = scfg.outputs["SEL"].split(".")[0]
+        # what the Summarize slice leaves in the query state *for every grouping* (also none / only constant columns):
+        # a field is definitely truthy only if it is assigned a truthy constant; fields filled by extend()/+= from the
+        # grouping columns are empty for an ungrouped summarize
+        s_items = Slicer(sym, sql, scfg.subject, sym.cls("Summarize")).slice(scfg.func.body)
+        qcls = sym.resolve_class(sql, "Query")
+        fresh = {}
+        for st in qcls.node.body:
+            if isinstance(st, ast.AnnAssign) and isinstance(st.target, ast.Name) and st.value is not None:
+                v = st.value
+                if isinstance(v, ast.Constant):
+                    fresh[f"{qname}.{st.target.id}"] = v.value
+                elif any(x in norm(v).replace(" ", "") for x in ("default_factory=list", "default_factory=dict", "default_factory=set")):
+                    fresh[f"{qname}.{st.target.id}"] = []
+        after = dict(fresh)
+        definite = set()
+        for st, _c in flat(s_items):
+            if isinstance(st, ast.Assign) and len(st.targets) == 1 and isinstance(st.targets[0], ast.Attribute) and norm(st.targets[0].value) == qname:
+                fld = f"{qname}.{st.targets[0].attr}"
+                if isinstance(st.value, ast.Constant):
+                    after[fld] = st.value.value
+                    if st.value.value:
+                        definite.add(fld)
+                elif isinstance(st.value, (ast.List, ast.Dict)) and not (st.value.elts if isinstance(st.value, ast.List) else st.value.keys):
+                    after[fld] = []
+        # (fields the Summarize slice fills from the grouping columns stay at their empty default: the ungrouped case)
+        # a table that is grouped but not summarised yet: group_by only records the pending grouping (partition_by); a
+        # filter there still acts on the input rows
+        pending = dict(fresh)
+        pending[f"{qname}.partition_by"] = [Sym("g")]
+        try:
+            d_after = filter_destinations(f_stmts, qname, scfg.subject, after)
+            d_before = filter_destinations(f_stmts, qname, scfg.subject, fresh)
+            d_pending = filter_destinations(f_stmts, qname, scfg.subject, pending)
+        except Unsupported as u:
+            raise AnalysisError(f"C04/R2: cannot evaluate the SQL Filter slice: {u}") from u
+        node_f = f_stmts[0] if f_stmts else scfg.func
+        chk.ob("R2", sql, node_f, "Filter after summarize (grouped, ungrouped, constant grouping columns) -> query.having",
+               bool(d_after) and all(d == {f"{qname}.having"} for d in d_after),
+               f"after a summarize without (non-constant) grouping columns the SQL filter puts its predicates into {sorted(set().union(*d_after)) if d_after else '?'} "
+               f"(the Summarize slice only guarantees {sorted(definite) or 'nothing'}): a predicate on an aggregate lands in WHERE and the statement is "
+               "invalid / filters the input rows; it must go to HAVING")  # fmt: skip
+        chk.ob("R2", sql, node_f, "Filter between group_by and summarize -> query.where",
+               bool(d_pending) and all(d == {f"{qname}.where"} for d in d_pending),
+               f"a filter on a grouped, not yet summarised table puts its predicates into {sorted(set().union(*d_pending)) if d_pending else '?'}: "
+               "HAVING on a bare column keeps or drops whole groups by one arbitrary row and the aggregates see unfiltered rows")  # fmt: skip
+        chk.ob("R2", sql, node_f, "Filter on a fresh query -> query.where",
+               bool(d_before) and all(d == {f"{qname}.where"} for d in d_before),
+               f"a filter before any summarize puts its predicates into {sorted(set().union(*d_before)) if d_before else '?'} instead of WHERE")  # fmt: skip
     # compile_query: interpreted on one-hot query states (pipesim); the partial evaluation of its if-statements is the fallback
     from .. import pipesim as _psq
 
@@ -164,10 +170,6 @@ def run(chk):
     cq_interpreted = _psq.report_compile_query(chk, m, "R2", ("where", "having", "group", "limit", "offset", "select"), floor=40)
     if not cq_interpreted:
         _compile_query_onehot()
-
-    from .. import pipesim as _ps
-
-    _ps.report(chk, m, "R11", ['placement', 'recompile'], depth_quick=2, depth_thorough=3, floor=100)
 
     # ---- R10 Polars aggregates: the null-for-empty guard is evaluated per partition (polsim)
     from .. import polsim
